@@ -327,6 +327,66 @@ def run_routes(case):
   return routes_agree(case[0], f, spec, canon)
 
 
+# ---------------------------------------------------------------- long blocks
+def gen_long(run):
+  for n in (33, 64, 65, 80, 96, 97, 129, 150, 200) + ((512,) if run.tier != "quick" else ()):
+    for seed in (1, 2):
+      yield (n, seed)
+
+
+def run_long(case):
+  """Blocks of tens to hundreds of samples (sums of more than 32 / 64 / 128 products), small orders:
+  acorr, lag_matrix, lpc.kautocor and lpc.kcovar against the plain sums and their normal equations."""
+  n, seed = case
+  v, blk = seed, []
+  for _ in range(n):
+    v = (v * 1103515245 + 12345) % (2 ** 31)
+    blk.append(F(((v >> 8) % 9) - 4, 1 if (v >> 5) % 3 else 2))
+  qb = qs(blk)
+  N = n
+  for ml in (None, 0, 1, 5, 31):
+    got = acorr(qb) if ml is None else acorr(qb, ml)
+    m = N - 1 if ml is None else ml
+    exp = [sum((blk[i] * blk[i + t] for i in range(N - t)), F(0)) for t in range(m + 1)]
+    if len(got) != len(exp) or any(fr(g) != e for g, e in zip(got, exp)):
+      k = next((i for i, (g, e) in enumerate(zip(got, exp)) if fr(g) != e), -1)
+      return bad("acorr:long", "acorr of a long block is not the plain lag sum", {"lag": k, "value": str(exp[k])},
+                 str(fr(got[k])) if 0 <= k < len(got) else len(got), True)
+  for ml in (1, 3):
+    lm = lag_matrix(qb, ml)
+    exp = [[sum((blk[i - a] * blk[i - b] for i in range(ml, N)), F(0)) for a in range(ml + 1)] for b in range(ml + 1)]
+    if [[fr(x_) for x_ in row] for row in lm] != exp:
+      return bad("lag_matrix:long", "lag_matrix of a long block is not the plain covariance table",
+                 [[str(x_) for x_ in row] for row in exp], [[str(fr(x_)) for x_ in row] for row in lm], True)
+  r = [sum((blk[i] * blk[i + t] for i in range(N - t)), F(0)) for t in range(6)]
+  for order in (1, 3, 5):
+    try:
+      filt = lpc.kautocor(qb, order)
+    except ParCorError:
+      continue
+    a = numer(filt)
+    v_ = check_yule_walker(a, r, order, filt.error, "kautocor-long", True)
+    if v_: return v_
+    a = a + [F(0)] * (order + 1 - len(a))
+    if fr(filt.error) != energy(a, blk):
+      return bad("kautocor:energy-long", "error attribute is not the energy of a * (zero-extended block)",
+                 str(energy(a, blk)), str(fr(filt.error)), True)
+  for order in (1, 2):
+    try:
+      filt = lpc.kcovar(qb, order)
+    except (ValueError, ZeroDivisionError, ParCorError):
+      continue
+    a = numer(filt) + [F(0)] * (order + 1 - len(numer(filt)))
+    phi = [[sum((blk[i - p] * blk[i - q] for i in range(order, N)), F(0)) for q in range(order + 1)] for p in range(order + 1)]
+    for i in range(1, order + 1):
+      if sum((a[j] * phi[i][j] for j in range(order + 1)), F(0)) != 0:
+        return bad("kcovar:normal-equations-long", "covariance normal equations violated on a long block",
+                   0, {"row": i, "order": order}, True)
+    if fr(filt.error) != sum((a[j] * phi[0][j] for j in range(order + 1)), F(0)):
+      return bad("kcovar:error-long", "kcovar error is not the residual energy", None, str(fr(filt.error)), True)
+  return R(None, True, (n > 64, n > 128))
+
+
 KINDS = OrderedDict([
   ("reflection", Kind(gen_reflection, run_reflection, chunk=10,
                       rule="reflection vectors x r0 x orders; non-trivial: p >= 2")),
@@ -336,4 +396,5 @@ KINDS = OrderedDict([
                   rule="data blocks x orders for lpc.kcovar; non-trivial: it returned a filter")),
   ("call-routes", Kind(gen_routes, run_routes, chunk=1,
                        rule="each function with every documented parameter set: all positional / all keyword / every split must agree")),
+  ("long", Kind(gen_long, run_long, chunk=1, timeout=600, rule="pseudo-random exact blocks of 33..200 (512) samples x small orders")),
 ])
